@@ -484,7 +484,8 @@ impl<'a> World<'a> {
             }
             Op::CatchUp { node, peer, member } => {
                 if let (Some(n), Some(p)) = (self.pick_running(node), self.pick_running(peer)) {
-                    if n != p {
+                    // An application only fetches states from nodes of its own cluster.
+                    if n != p && self.cfg.cluster_of[n] % 2 == self.cfg.cluster_of[p] % 2 {
                         self.catch_up(n, p, member)?;
                     }
                 }
@@ -1837,11 +1838,27 @@ fn membership_phased_ops_strategy() -> BoxedStrategy<Vec<Op>> {
                 1 => any::<u16>().prop_map(Op::Deliver),
                 1 => any::<u16>().prop_map(Op::Duplicate),
                 1 => any_slot().prop_map(Op::Heartbeat),
+                1 => (any_slot(), any_slot(), any::<u16>()).prop_map(|(node, peer, member)| Op::CatchUp { node, peer, member }),
             ],
             3..16,
         )
     };
-    let comeback = proptest::collection::vec(
+    let restart_and_gossip = (any::<u16>(), proptest::collection::vec((any_slot(), 1u32..3), 3..7)).prop_map(|(r, rounds)| {
+        // the restarted node (and whoever else) gossips for a few seconds: heartbeats flow
+        let mut v = vec![Op::Restart(r)];
+        for (node, secs) in rounds {
+            for s in 0..4u16 {
+                v.push(Op::Round { node: slot_sel(s), mask: 0x0F });
+            }
+            for _ in 0..10 {
+                v.push(Op::Deliver(0));
+            }
+            v.push(Op::Advance(Adv::Secs(secs)));
+            v.push(Op::Liveness(node));
+        }
+        v
+    });
+    let comeback_single = proptest::collection::vec(
         prop_oneof![
             2 => any::<u16>().prop_map(Op::Restart),
             2 => any::<u16>().prop_map(Op::Join),
@@ -1851,6 +1868,7 @@ fn membership_phased_ops_strategy() -> BoxedStrategy<Vec<Op>> {
         ],
         0..6,
     );
+    let comeback = prop_oneof![2 => comeback_single, 1 => restart_and_gossip];
     (warmup, crash, skew(), comeback, skew())
         .prop_map(|(a, b, c, d, e)| {
             let mut ops = Vec::new();
@@ -1889,7 +1907,9 @@ fn op_strategy(profile: Profile) -> BoxedStrategy<Op> {
     let restart = n.prop_map(Op::Restart).boxed();
     let round = (n, any::<u8>()).prop_map(|(node, mask)| Op::Round { node, mask }).boxed();
     let handshake = (n, n).prop_map(|(a, b)| Op::Handshake { a, b }).boxed();
-    // weights: write adv hb gc live syn deliver drop dup cut heal join crash restart round handshake
+    let synhold = (n, n).prop_map(|(a, b)| Op::SynHold { a, b }).boxed();
+    let catchup = (n, n, n).prop_map(|(node, peer, member)| Op::CatchUp { node, peer, member }).boxed();
+    // weights: write adv hb gc live syn deliver drop dup cut heal join crash restart round handshake (+ synhold catchup: 2 each)
     let w: [u32; 16] = match profile {
         Profile::Small => [24, 5, 2, 4, 2, 10, 20, 3, 5, 2, 2, 2, 0, 0, 4, 15],
         Profile::Truncation => [30, 3, 1, 2, 1, 8, 18, 2, 4, 1, 1, 2, 0, 0, 2, 25],
@@ -1901,7 +1921,9 @@ fn op_strategy(profile: Profile) -> BoxedStrategy<Op> {
         Profile::Deep | Profile::Phased | Profile::MemberPhased => unreachable!(),
     };
     let all = [write, advance, hb, gc, live, syn, deliver, drop, dup, cut, heal, join, crash, restart, round, handshake];
-    let options: Vec<(u32, BoxedStrategy<Op>)> = w.iter().zip(all).filter(|(w, _)| **w > 0).map(|(w, s)| (*w, s)).collect();
+    let mut options: Vec<(u32, BoxedStrategy<Op>)> = w.iter().zip(all).filter(|(w, _)| **w > 0).map(|(w, s)| (*w, s)).collect();
+    options.push((2, synhold));
+    options.push((2, catchup));
     proptest::strategy::Union::new_weighted(options).boxed()
 }
 
@@ -1923,11 +1945,23 @@ fn cfg_strategy(profile: Profile, mon: Monitor) -> BoxedStrategy<SimCfg> {
     };
     let predicate = if mon == Monitor::C13 { (0u8..4).boxed() } else { prop_oneof![4 => Just(0u8), 1 => 1u8..4].boxed() };
     let two = profile == Profile::TwoClusters;
-    let ids = prop_oneof![Just("c"), Just(""), Just("C"), Just("cc"), Just("c "), Just("cluster-with-a-rather-long-identifier-0123456789")];
+    let ids = prop_oneof![
+        Just("c".to_string()),
+        Just("".to_string()),
+        Just("C".to_string()),
+        Just("cc".to_string()),
+        Just("c ".to_string()),
+        Just(" c".to_string()),
+        Just("c\n".to_string()),
+        Just("cluster-with-a-rather-long-identifier-0123456789".to_string()),
+        Just("ç".to_string()),
+        (1usize..400, any::<u16>()).prop_map(|(len, seed)| expand_value(4, len, seed as u64)),
+        (100usize..300).prop_map(|n| format!("{}é-cluster", "a".repeat(n))),
+    ];
     (2u8..=5, 1u8..=5, kv_grace, fd_strategy(profile), predicate, any::<u64>(), proptest::array::uniform5(0u8..2), ids.clone(), ids)
         .prop_map(move |(slots, initial, kv_grace_ms, fd, predicate, shuffle_seed, clusters, id0, id1)| {
             let cluster_of = if two { clusters } else { [0; 5] };
-            let id1 = if id1 == id0 { format!("{id0}x") } else { id1.to_string() };
+            let id1 = if id1 == id0 { format!("{id0}x") } else { id1 };
             let (slots, initial) = if profile == Profile::MemberPhased { (4, 3.max(initial.min(4))) } else if matches!(profile, Profile::Deep | Profile::Phased) { (4, if profile == Profile::Phased { 4 } else { 3.max(initial.min(4)) }) } else { (slots, initial) };
             SimCfg {
                 slots,
@@ -1937,7 +1971,7 @@ fn cfg_strategy(profile: Profile, mon: Monitor) -> BoxedStrategy<SimCfg> {
                 callback: mon == Monitor::C20,
                 predicate,
                 cluster_of,
-                cluster_ids: [id0.to_string(), id1],
+                cluster_ids: [id0, id1],
                 shuffle_seed,
             }
         })
